@@ -31,6 +31,18 @@ def bounds_of(b):
                 max_block_size=b.max_block_size, height=b.height, width=b.width, allow_unmet_first=b.allow_unmet_constraints_first)
 
 
+def covered_cells(b):
+    """The area a builder works on: the whole board, or - when it was started from initial_blocks that leave cells out (boards with
+    holes; the builder has explicit code for uncovered cells) - the cells of those blocks."""
+    h, w = b.height, b.width
+    ib = getattr(b, "initial_blocks", None)
+    if ib is not None:
+        cov = {tuple(c) for bl in ib for c in bl}
+        if len(cov) != h * w:
+            return cov
+    return {(y, x) for y in range(h) for x in range(w)}
+
+
 def partition_errors(b, v, check_bounds=True):
     """None if v is a valid value of builder b, else (mechanism, text)."""
     h, w = b.height, b.width
@@ -46,8 +58,12 @@ def partition_errors(b, v, check_bounds=True):
             if c in seen:
                 return ("cell-twice", f"cell {c} is in blocks {seen[c]} and {i}")
             seen[c] = i
-    if len(seen) != h * w:
-        return ("cells-missing", f"{h * w - len(seen)} cells belong to no block")
+    target = covered_cells(b)
+    if set(seen) != target:
+        missing, extra = len(target - set(seen)), len(set(seen) - target)
+        if extra:
+            return ("cells-outside-the-covered-area", f"{extra} cells outside the area the builder was started on belong to a block")
+        return ("cells-missing", f"{missing} cells belong to no block")
     for i, bl in enumerate(v):
         s = set(bl)
         stack = [bl[0]]
